@@ -906,14 +906,17 @@ def import_scenario(rng):
     if shape == "chain":
         root0 = "import 'base.pg';\nProg: base.E+[semi];\nterminals\nsemi: ';';\n"
         root1 = "import 'base.pg';\nProg: Line+;\nLine: base.E semi;\nterminals\nsemi: ';';\n"
+        # a root nonterminal with the plain name of an imported terminal (re-export)
+        root2 = ("import 'base.pg';\nProg: num+[semi];\nnum: base.E;\nterminals\nsemi: ';';\n")
         files = lambda r, b: {"g.pg": r, "base.pg": b}  # noqa
         versions = [
-            files(root0, base_pg(ops_v[0])),
+            files(rng.choice([root0, root0, root2]), base_pg(ops_v[0])),
             files(root0, base_pg(ops_v[1])),
             files(root0, base_pg(ops_v[0], reorder=True)),
             files(root1, base_pg(ops_v[0])),
             files(root0, base_pg(ops_v[2])),
             files(root0, base_pg(ops_v[0], num_re=r"\d+(\.\d+)?")),
+            files(root2, base_pg(ops_v[1])),
         ]
         edits = {1: ["base.pg"], 2: ["base.pg"], 3: ["g.pg"], 4: ["base.pg"], 5: ["base.pg"]}
     elif shape == "cycle":
